@@ -255,11 +255,22 @@ def run_C09(tier, seed):
     # the seed-derived nonces enter A, L_j, R_j, A1, B at index (label, j, k) exactly as the reference derivation says
     sc, _ = stages.pick_scenarios("recover", tier, seed, lambda s: honest(s) and len(s["sc"]["members"]) == 1 and s["sc"]["members"][0]["seed"] != 0 and nm_of(s) <= (8 if q else 64), 12 if q else 100, prop="C09")
     res.append(stages.trace_stage("C09", "seed-nonces", sc, seed, module="TraceProve", consts=TP_CONSTS, calls="prove"))
+    # verifier side: the recovered value solves the recovery equation at the recorded challenges with the seed-derived nonces
+    sv, _ = stages.pick_scenarios("recover", tier, seed, lambda s: s["expect"]["verify"] == "ok" and s["sc"]["mode"] == "RecoverAndVerify" and nm_of(s) <= 16
+                                  and any(m["v"]["seed"] != 0 for m in s["sc"]["members"]), 14 if q else 120, prop="C09")
+    res.append(stages.trace_stage("C09", "recovery-equation", sv, seed, module="TraceVerify", calls="verify"))
     return res
 
 
 def run_C10(tier, seed):
-    return [stages.api_stage("C10", "recover", tier, seed)]
+    q = Q(tier)
+    res = [stages.api_stage("C10", "recover", tier, seed)]
+    # wrong seed / seed on an unseeded proof: the value returned is the solution of the recovery equation for THAT seed,
+    # and the final-MSM scalars (hence the verdict) do not involve the seed at all
+    sv, _ = stages.pick_scenarios("recover", tier, seed, lambda s: s["expect"]["verify"] == "ok" and s["sc"]["mode"] == "RecoverAndVerify" and nm_of(s) <= 16
+                                  and any(m["v"]["seed"] != 0 and m["v"]["seed"] != m["seed"] for m in s["sc"]["members"]), 10 if q else 100, prop="C10")
+    res.append(stages.trace_stage("C10", "wrong-seed", sv, seed, module="TraceVerify", calls="verify"))
+    return res
 
 
 def run_C12(tier, seed):
